@@ -128,6 +128,8 @@ def expected_of(stmt):
 
 def check(case, do_crosscheck=True):
     """case: {"stmts": [{"s": idx, "p": idx, "otext": str, "oexp": [...], "sep": str, "tail": str}], "extra": [comment/blank lines positions]}"""
+    if "rich" in case:
+        return check_rich(case)
     stmts = case["stmts"]
     lines = []
     exp = []
@@ -159,6 +161,31 @@ def check(case, do_crosscheck=True):
     if got != exp or errors != 0:
         return violation("document %r\n expected %s\n got      %s\n error_triples=%s" % (text, exp, got, errors), labels, nt)
     return ok(labels, nt)
+
+
+def check_rich(case):
+    lines, exp = [], []
+    labels = {"rich"}
+    for sm in case["rich"]:
+        line = sm["sep"].join(sm["raw"]) + sm["tail"]
+        e = (tuple(sm["exp"][0]), sm["exp"][1], tuple(sm["exp"][2]))
+        if not crosscheck(line, e):
+            return discard("generator-crosscheck-rich")
+        lines.append(line)
+        exp.append(e)
+    text = "\n".join(lines) + ("\n" if case.get("final_nl", True) else "")
+    labels.add("nontrivial")
+    res, crash = read_doc(text)
+    if crash is not None:
+        if isinstance(crash, sut.Hang):
+            if sut.confirm_loop(lambda: list(NtTriplesYielder(raw_graph=text).yield_triples())):
+                return violation("reader does not terminate on %r" % text, labels, True)
+            return discard("slow")
+        return violation("reader raised %s on %r" % (crash, text), labels, True)
+    got, errors = res
+    if got != exp or errors != 0:
+        return violation("document %r\n expected %s\n got      %s\n error_triples=%s" % (text, exp, got, errors), labels, True)
+    return ok(labels, True)
 
 
 # ------------------------------------------------------------------ enumeration (custom shard runner: batches of lines)
@@ -269,8 +296,69 @@ def stmt(draw):
     return sm
 
 
+# ---- "random beyond": free text over a broad alphabet, escaped as the N-Triples grammar allows (ECHAR, UCHAR), free-form
+# IRIs, blank-node labels and language tags.  Expected projection is known by construction; rdflib cross-checks.
+_TEXT = st.text(alphabet=st.one_of(st.sampled_from(list(' !#$%&()*+,-./:;<=>?@[]^_`{|}~"\\\'\t\n\r')),
+                                   st.characters(min_codepoint=0x30, max_codepoint=0x7a),
+                                   st.sampled_from(["\u00e9", "\u65e5", "\U0001F600", "\u00a0"])), max_size=10)
+_ECHAR = {"\t": "\\t", "\n": "\\n", "\r": "\\r", '"': '\\"', "\\": "\\\\", "\b": "\\b", "\f": "\\f"}
+
+
+@st.composite
+def rich_literal(draw):
+    txt = draw(_TEXT)
+    out = []
+    for ch in txt:
+        k = draw(st.integers(0, 9))
+        if ch in _ECHAR:
+            out.append(_ECHAR[ch])
+        elif ch == "'" and k < 5:
+            out.append("\\'")
+        elif k == 0 and ord(ch) < 0x10000:
+            out.append("\\u%04X" % ord(ch))
+        elif k == 1:
+            out.append("\\U%08X" % ord(ch))
+        else:
+            out.append(ch)
+    body = '"' + "".join(out) + '"'
+    kind = draw(st.integers(0, 3))
+    if kind == 0:
+        return body, ["lit", XSD_STRING]
+    if kind == 1:
+        tag = draw(st.sampled_from(["en", "es", "en-GB", "zh-Hant-TW", "x-a1", "de-1996"]))
+        return body + "@" + tag, ["lit", LANGSTRING]
+    dt = draw(st.sampled_from([XSD + "int", XSD + "string", "http://ex.org/dt#a@b", "http://ex.org/dt/x_y-z.1", "urn:dt:q", XSD + "date",
+                               RDF + "HTML", "http://dbpedia.org/datatype/usDollar", "http://www.opengis.net/ont/geosparql#wktLiteral"]))
+    return body + "^^<" + dt + ">", ["lit", dt]
+
+
+RDF = "http://www.w3.org/1999/02/22-rdf-syntax-ns#"
+_IRI_TAIL = st.text(alphabet=st.sampled_from(list("abcXYZ019-._~:/?#[]@!$&'()*+,;=%")), max_size=8)
+_BN = st.from_regex(r"[A-Za-z0-9_]([A-Za-z0-9_.\-]{0,5}[A-Za-z0-9_\-])?", fullmatch=True)
+
+
+@st.composite
+def rich_stmt(draw):
+    def node(allow_lit):
+        k = draw(st.integers(0, 9))
+        if allow_lit and k < 6:
+            return draw(rich_literal())
+        if k < 8:
+            iri = "http://ex.org/" + draw(_IRI_TAIL)
+            return "<" + iri + ">", ["iri", iri]
+        lab = "_:" + draw(_BN)
+        return lab, ["bnode", lab]
+    stext, sexp = node(False)
+    piri = "http://ex.org/p" + draw(_IRI_TAIL)
+    otext, oexp = node(True)
+    return {"raw": [stext, "<" + piri + ">", otext], "exp": [sexp, piri, oexp], "sep": draw(st.sampled_from(SEPS)),
+            "tail": draw(st.sampled_from(TAILS))}
+
+
 @st.composite
 def cases(draw):
+    if draw(st.integers(0, 2)) == 0:
+        return {"rich": draw(st.lists(rich_stmt(), min_size=1, max_size=3)), "final_nl": draw(st.booleans())}
     return {"stmts": draw(st.lists(stmt(), min_size=1, max_size=5)), "final_nl": draw(st.booleans())}
 
 
